@@ -580,6 +580,8 @@ pub fn v2_streams(tier: Tier, unit: u64) -> Vec<StreamSpec> {
         stream("v2-mix", tier.n(50, 4 * u, 300 * u)),
         stream("v2-rand", tier.n(100, 20 * u, 2000 * u)),
         stream("v2-bigbuf", tier.n(2, 160, 3000)),
+        // pairs of unrelated headers with equal fingerprints, each in both orders (spec::collide)
+        exhaustive("v2-collide", if tier == Tier::Miri { 0 } else { 2 * crate::collide::v2_pairs().len() as u64 }),
     ]
 }
 
@@ -588,6 +590,10 @@ pub fn v2_case(stream_name: &str, idx: u64, seed: u64, buf: &mut Vec<u8>) {
     let mut rng = Rng::for_case(seed, stream_id(stream_name), idx);
     let rng = &mut rng;
     match stream_name {
+        "v2-collide" => {
+            buf.clear();
+            buf.extend_from_slice(&crate::collide::v2_case(idx));
+        }
         "v2-dense" => dense_case(idx, rng, buf),
         "v2-dense-s" => {
             let i = rng.below(dense_count());
